@@ -14,6 +14,22 @@ for c in F.CONFIGS:
     d = os.path.dirname(p)
     for fn in sorted(os.listdir(d)):
         raw = json.load(open(os.path.join(d, fn)))
-        out["%s|%s" % (raw["crate"], raw.get("config"))] = F.items_of(raw)
+        it = F.items_of(raw)
+        # reference call graph (who calls each repo-local function; a closure counts as its defining function): used to
+        # find the host of an anchor function that a later edit inlined into its only caller
+        fx = F.Facts(os.path.join(d, fn))
+        from rules.common import callers_map
+        cm = callers_map(fx)
+        def top(p):
+            return F.norm(p.split("::{closure#", 1)[0])
+        callers = {}
+        for callee, cs in cm.items():
+            if "{closure#" in callee:
+                continue
+            cs2 = sorted({top(c) for c in cs} - {callee})
+            if cs2:
+                callers[callee] = cs2
+        it["callers"] = callers
+        out["%s|%s" % (raw["crate"], raw.get("config"))] = it
 json.dump(out, open(os.path.join(V, "analysis", "ref_items.json"), "w"), indent=0, sort_keys=True)
 print({k: {kk: len(vv) for kk, vv in v.items()} for k, v in out.items()})
